@@ -158,27 +158,35 @@ def handle_quic_packet(packet: Packet, keylog, quic_sessions: list[QuicSession],
             case _:
                 quic_version = QuicVersion.UNKNOWN
 
-    for session in quic_sessions:
-        # first try matching connection IDs
+    def known_cid(session):
+        # the connection ID of this session that the datagram is addressed to, or None
         if header_type == QuicHeaderType.LONG:
             if dcid in session.client_cids or dcid in session.server_cids:
-                session.handle_packet(packet, dcid, quic_version)
-                return
-        else:
-            # match by checking all known cid lengths for session: longest first, so that the result does not
-            # depend on set iteration order; a zero-length cid matches every datagram and identifies nothing.
-            # A connection ID is the destination of datagrams travelling towards the endpoint that chose it.
-            from_server = packet.ip_src == session.server_ip and packet.sport == session.server_port
-            for cid in sorted(session.client_cids if from_server else session.server_cids, key=lambda c: (-len(c), c)):
-                if len(cid) == 0:
-                    continue
-                if cid == packet_payload[1:1 + len(cid)]:
-                    session.handle_packet(packet, cid, quic_version)
-                    return
+                return dcid
+            return None
+        # match by checking all known cid lengths for session: longest first, so that the result does not
+        # depend on set iteration order; a zero-length cid matches every datagram and identifies nothing.
+        # A connection ID is the destination of datagrams travelling towards the endpoint that chose it.
+        from_server = packet.ip_src == session.server_ip and packet.sport == session.server_port
+        for cid in sorted(session.client_cids if from_server else session.server_cids, key=lambda c: (-len(c), c)):
+            if len(cid) == 0:
+                continue
+            if cid == packet_payload[1:1 + len(cid)]:
+                return cid
+        return None
 
-        # check matching ip address and port for zero length cids
+    # a datagram between the two socket addresses of a session belongs to that session
+    for session in quic_sessions:
         if session.matches_session_dgram(packet.ip_src, packet.ip_dst, packet.sport, packet.dport):
-            session.handle_packet(packet, dcid, quic_version)
+            cid = known_cid(session)
+            session.handle_packet(packet, dcid if cid is None else cid, quic_version)
+            return
+
+    # otherwise (the path of a connection changed) the connection ID decides
+    for session in quic_sessions:
+        cid = known_cid(session)
+        if cid is not None:
+            session.handle_packet(packet, cid, quic_version)
             return
 
     if header_type != QuicHeaderType.SHORT:
